@@ -45,34 +45,74 @@ def _loop_level(body, kinds):
     return out
 
 
-def fuse_for(s: ast.For, gen_node: ast.FunctionDef) -> Optional[List[ast.stmt]]:
-    """the fused statements for `for T in G(...): BODY` with G = gen_node, or None when this is not the simple case"""
+def _returns_as_breaks(g: ast.FunctionDef) -> bool:
+    """every `return` of the generator is a bare return directly inside its LAST top-level statement, a loop, and not inside a nested loop: leaving the
+    generator there is leaving that loop (rewritten in place to `break`); False when a return is of another kind"""
+    rets = [n for n in _own_nodes(g) if isinstance(n, ast.Return)]
+    if not rets:
+        return True
+    body = [b for b in g.body if not (isinstance(b, ast.Expr) and isinstance(b.value, ast.Constant))]
+    if not body or not isinstance(body[-1], (ast.For, ast.While)) or body[-1].orelse:
+        return False
+    loop = body[-1]
+    found = []
+
+    def walk(stmts):
+        for i, st in enumerate(stmts):
+            if isinstance(st, ast.Return):
+                if st.value is not None:
+                    return False
+                found.append((stmts, i))
+            elif isinstance(st, ast.If):
+                if walk(st.body) is False or walk(st.orelse) is False:
+                    return False
+            elif isinstance(st, (ast.For, ast.While, ast.Try, ast.With, ast.Match, ast.FunctionDef)):
+                if any(isinstance(n, ast.Return) for n in ast.walk(st)):
+                    return False
+        return True
+
+    if walk(loop.body) is False or len(found) != len(rets):
+        return False
+    for stmts, i in found:
+        stmts[i] = ast.copy_location(ast.Break(), stmts[i])
+    return True
+
+
+def fuse_for(s: ast.For, gen_node: ast.FunctionDef, receiver=None) -> Optional[List[ast.stmt]]:
+    """the fused statements for `for T in G(...): BODY` with G = gen_node, or None when this is not the simple case.  `receiver` is the expression the
+    first parameter (self / cls) of a method is bound to"""
     it = s.iter
     if not isinstance(it, ast.Call) or s.orelse or any(isinstance(a, ast.Starred) for a in it.args) or any(k.arg is None for k in it.keywords):
         return None
     g = gen_node
     own = list(_own_nodes(g))
     yields = [n for n in own if isinstance(n, (ast.Yield, ast.YieldFrom))]
-    if len(yields) != 1 or isinstance(yields[0], ast.YieldFrom) or any(isinstance(n, ast.Return) for n in own) or any(isinstance(n, (ast.Global, ast.Nonlocal)) for n in own):
+    if not yields or any(isinstance(y, ast.YieldFrom) for y in yields) or any(isinstance(n, (ast.Global, ast.Nonlocal)) for n in own):
         return None
-    # the yield is an expression statement reached through plain blocks (if / for / while bodies)
-    path = None
+    if len(yields) > 1 and (len(yields) > 4 or any(isinstance(n, (ast.Lambda, ast.FunctionDef, ast.AsyncFunctionDef)) for b in s.body for n in ast.walk(b))):
+        return None  # the consumer's body is copied once per yield: only small bodies without nested functions
+    if any(isinstance(n, ast.Return) for n in own):
+        probe = copy.deepcopy(g)
+        if not _returns_as_breaks(probe):
+            return None
+    # every yield is an expression statement reached through plain blocks (if / for / while bodies)
+    sites = []
 
     def find(stmts, trail):
-        nonlocal path
         for i, st in enumerate(stmts):
-            if isinstance(st, ast.Expr) and st.value is yields[0]:
-                path = trail + [(stmts, i)]
-                return True
+            if isinstance(st, ast.Expr) and any(st.value is y for y in yields):
+                sites.append((stmts, i, st.value))
             if isinstance(st, (ast.If, ast.For, ast.While)):
-                if find(st.body, trail + [(stmts, i)]) or find(st.orelse, trail + [(stmts, i)]):
-                    return True
-        return False
+                find(st.body, trail + [(stmts, i)])
+                find(st.orelse, trail + [(stmts, i)])
+        return bool(sites)
 
     gcopy = copy.deepcopy(g)
+    _returns_as_breaks(gcopy)
     own_c = list(_own_nodes(gcopy))
     yields = [n for n in own_c if isinstance(n, ast.Yield)]
-    if not find(gcopy.body, []):
+    find(gcopy.body, [])
+    if len(sites) != len(yields):
         return None
     # consumer body: no break of this loop, no return
     if _loop_level(s.body, (ast.Break,)) or any(isinstance(n, ast.Return) for st_ in s.body for n in [st_] + list(_own_nodes(st_))):
@@ -83,9 +123,15 @@ def fuse_for(s: ast.For, gen_node: ast.FunctionDef) -> Optional[List[ast.stmt]]:
         return None
     params = [x.arg for x in a.posonlyargs + a.args + a.kwonlyargs]
     given = {}
-    for nm, v in zip([x.arg for x in a.posonlyargs + a.args], it.args):
+    positional = [x.arg for x in a.posonlyargs + a.args]
+    if receiver is not None:
+        if not positional:
+            return None
+        given[positional[0]] = receiver
+        positional = positional[1:]
+    for nm, v in zip(positional, it.args):
         given[nm] = v
-    if len(it.args) > len(a.posonlyargs + a.args):
+    if len(it.args) > len(positional):
         return None
     for k in it.keywords:
         if k.arg in given or k.arg not in params:
@@ -110,10 +156,13 @@ def fuse_for(s: ast.For, gen_node: ast.FunctionDef) -> Optional[List[ast.stmt]]:
     out: List[ast.stmt] = []
     for nm in params:
         out.append(ast.Assign(targets=[ast.Name(id=pre + nm, ctx=ast.Store())], value=given[nm]))
-    stmts, i = path[-1]
-    once = ast.For(target=ast.Name(id=pre + "once", ctx=ast.Store()), iter=ast.Tuple(elts=[ast.Constant(value=0)], ctx=ast.Load()), body=list(s.body), orelse=[])
-    value = yields[0].value if yields[0].value is not None else ast.Constant(value=None)
-    stmts[i:i + 1] = [ast.Assign(targets=[s.target], value=value), once]
+    # (replace from the last site of each statement list backwards so that positions stay valid)
+    for k, (stmts, i, y) in enumerate(sorted(sites, key=lambda t: -t[1])):
+        body_k = list(s.body) if k == 0 else copy.deepcopy(list(s.body))
+        tgt_k = s.target if k == 0 else copy.deepcopy(s.target)
+        once = ast.For(target=ast.Name(id=pre + "once%d" % k, ctx=ast.Store()), iter=ast.Tuple(elts=[ast.Constant(value=0)], ctx=ast.Load()), body=body_k, orelse=[])
+        value = y.value if y.value is not None else ast.Constant(value=None)
+        stmts[i:i + 1] = [ast.Assign(targets=[tgt_k], value=value), once]
     body = [b for b in gcopy.body if not (isinstance(b, ast.Expr) and isinstance(b.value, ast.Constant) and isinstance(b.value.value, str))]
     out += body
     for st_ in out:
@@ -416,3 +465,112 @@ def rotate_deferred(fn_node):
                 out.append(s)
         return out
     return None
+
+
+# ---------------------------------------------------------------------------------------------------------------------------------------------------
+# a generic walker with a visitor callback, and a nested visitor that updates its enclosing function's variables
+
+def _sans_doc(body):
+    return [b for b in body if not (isinstance(b, ast.Expr) and isinstance(b.value, ast.Constant) and isinstance(b.value.value, str))]
+
+
+def _bind_call(g: ast.FunctionDef, call: ast.Call):
+    """parameter name -> argument expression for a call with plain positional / keyword arguments that binds every parameter; None otherwise"""
+    a = g.args
+    if a.vararg or a.kwarg or any(isinstance(x, ast.Starred) for x in call.args) or any(k.arg is None for k in call.keywords):
+        return None
+    pos = [x.arg for x in a.posonlyargs + a.args]
+    names = pos + [x.arg for x in a.kwonlyargs]
+    if len(call.args) > len(pos):
+        return None
+    given = dict(zip(pos, call.args))
+    for k in call.keywords:
+        if k.arg in given or k.arg not in names:
+            return None
+        given[k.arg] = k.value
+    return given if set(given) == set(names) else None
+
+
+def inline_visitors(fn_node, resolve_new):
+    """    def W(items, *, into):                 cur = init                               cur = init
+            for item in items: into(item)       def visit(c):                    ==>      for c' in data:
+                                                    nonlocal cur; cur = f(cur, c)             cur = f(cur, c')
+                                                W(data, into=visit)
+    W is a function of the module that did not exist on the pinned tree (resolve_new(name) gives its definition) and does nothing but hand every item to the
+    callback; `visit` is a function defined directly in the body of fn_node without return / yield.  Both calls are statements (their results unused), so
+    writing the loop and the visitor's body in place is what the three functions do together.  Returns the new body of fn_node or None."""
+    body = list(fn_node.body)
+    changed = False
+    nested = {b.name: b for b in body if isinstance(b, ast.FunctionDef)}
+    out = []
+    for st in body:
+        new_st = st
+        # step 1: the walker
+        if isinstance(st, ast.Expr) and isinstance(st.value, ast.Call) and isinstance(st.value.func, ast.Name):
+            g = resolve_new(st.value.func.id)
+            if g is not None and isinstance(g, ast.FunctionDef) and not any(isinstance(n, (ast.Yield, ast.YieldFrom)) for n in ast.walk(g)):
+                gb = _sans_doc(g.body)
+                given = _bind_call(g, st.value)
+                if given is not None and len(gb) == 1 and isinstance(gb[0], ast.For) and not gb[0].orelse and isinstance(gb[0].target, ast.Name) and isinstance(gb[0].iter, ast.Name) and gb[0].iter.id in given:
+                    lb = gb[0].body
+                    if len(lb) == 1 and isinstance(lb[0], ast.Expr) and isinstance(lb[0].value, ast.Call) and isinstance(lb[0].value.func, ast.Name) and lb[0].value.func.id in given \
+                            and len(lb[0].value.args) == 1 and not lb[0].value.keywords and isinstance(lb[0].value.args[0], ast.Name) and lb[0].value.args[0].id == gb[0].target.id \
+                            and lb[0].value.func.id != gb[0].iter.id:
+                        _COUNTER[0] += 1
+                        item = "__w%d_item" % _COUNTER[0]
+                        call = ast.Expr(value=ast.Call(func=given[lb[0].value.func.id], args=[ast.Name(id=item, ctx=ast.Load())], keywords=[]))
+                        new_st = ast.For(target=ast.Name(id=item, ctx=ast.Store()), iter=given[gb[0].iter.id], body=[call], orelse=[])
+                        for n in ast.walk(new_st):
+                            if getattr(n, "lineno", None) is None:
+                                ast.copy_location(n, st)
+                        ast.fix_missing_locations(new_st)
+                        changed = True
+        out.append(new_st)
+
+    # step 2: calls of nested visitors as statements, anywhere in the (new) body
+    def inline_calls(stmts):
+        nonlocal changed
+        i = 0
+        while i < len(stmts):
+            st = stmts[i]
+            if isinstance(st, ast.Expr) and isinstance(st.value, ast.Call) and isinstance(st.value.func, ast.Name) and st.value.func.id in nested:
+                f = nested[st.value.func.id]
+                given = _bind_call(f, st.value)
+                own = list(_own_nodes(f))
+                if given is not None and not any(isinstance(n, (ast.Return, ast.Yield, ast.YieldFrom, ast.Global, ast.Lambda, ast.FunctionDef)) for n in own) and not f.decorator_list:
+                    _COUNTER[0] += 1
+                    pre = "__v%d_" % _COUNTER[0]
+                    fc = copy.deepcopy(f)
+                    own_c = list(_own_nodes(fc))
+                    outer = {nm for n in own_c if isinstance(n, ast.Nonlocal) for nm in n.names}
+                    local = set(given) | {n.id for n in own_c if isinstance(n, ast.Name) and isinstance(n.ctx, (ast.Store, ast.Del))}
+                    local -= outer
+                    for n in own_c:
+                        if isinstance(n, ast.Name) and n.id in local:
+                            n.id = pre + n.id
+                    binds = [ast.Assign(targets=[ast.Name(id=pre + k, ctx=ast.Store())], value=v) for k, v in given.items()]
+                    inl = binds + [b for b in _sans_doc(fc.body) if not isinstance(b, ast.Nonlocal)]
+                    for b in inl:
+                        for n in ast.walk(b):
+                            if getattr(n, "lineno", None) is None:
+                                ast.copy_location(n, st)
+                        ast.fix_missing_locations(b)
+                    stmts[i:i + 1] = inl
+                    changed = True
+                    i += len(inl)
+                    continue
+            for fld in ("body", "orelse", "finalbody"):
+                sub = getattr(st, fld, None)
+                if isinstance(sub, list) and sub and isinstance(sub[0], ast.stmt) and not isinstance(st, (ast.FunctionDef, ast.AsyncFunctionDef, ast.ClassDef)):
+                    inline_calls(sub)
+            i += 1
+
+    # a visitor is inlined only when it is used as such: every reference to its name (after step 1) is the callee of a call statement
+    for name in list(nested):
+        refs = [n for s_ in out for n in ast.walk(s_) if isinstance(n, ast.Name) and n.id == name and not (isinstance(s_, ast.FunctionDef) and s_.name == name)]
+        callee = [s_2.value.func for s_ in out for s_2 in ast.walk(s_) if isinstance(s_2, ast.Expr) and isinstance(s_2.value, ast.Call) and isinstance(s_2.value.func, ast.Name) and s_2.value.func.id == name]
+        if len(refs) != len(callee) or not callee:
+            del nested[name]
+    if nested:
+        inline_calls(out)
+    return out if changed else None
